@@ -29,6 +29,25 @@ def _install_capture():
         return orig(self)
 
     wrapf.Wrapf.wrap_library = wrap_library
+    # implied expressions are recorded when they are emitted: the format dictionaries of a C function are shared
+    # by all fortran_generic clones that call it, so only the last clone's text survives the run
+    orig_impl = wrapf.Wrapf.wrap_function_impl
+    orig_ftn = wrapf.ftn_implied
+
+    def wrap_function_impl(self, cls, node, fileinfo):
+        _holder["current"] = node
+        try:
+            return orig_impl(self, cls, node, fileinfo)
+        finally:
+            _holder["current"] = None
+
+    def ftn_implied(expr, func, arg):
+        res = orig_ftn(expr, func, arg)
+        _holder.setdefault("implied", []).append((_holder.get("current"), arg, expr, res[0]))
+        return res
+
+    wrapf.Wrapf.wrap_function_impl = wrap_function_impl
+    wrapf.ftn_implied = ftn_implied
     wrapf.Wrapf._c01_patched = True
 
 
@@ -282,6 +301,54 @@ def parse_generic_interfaces(text):
     return res
 
 
+def iexpr_tokens(node, names):
+    """real expression AST (declast.ExprParser) -> prefix tokens of the driver; None if a form is not modelled"""
+    k = type(node).__name__
+    if k == "Identifier":
+        if node.args is None:
+            if node.name == "true":
+                return ["T"]
+            if node.name == "false":
+                return ["F"]
+            return ["i%d" % names[node.name]] if node.name in names else None
+        if node.name in ("size", "len", "len_trim", "type") and len(node.args) == 1 and \
+                type(node.args[0]).__name__ == "Identifier" and node.args[0].name in names:
+            return [{"size": "s", "len": "l", "len_trim": "t", "type": "y"}[node.name] + str(names[node.args[0].name])]
+        return None
+    if k == "Constant":
+        return ["c" + node.value] if node.value.isdigit() and not (len(node.value) > 1 and node.value[0] == "0") else None
+    if k == "BinaryOp":
+        l, r = iexpr_tokens(node.left, names), iexpr_tokens(node.right, names)
+        op = {"+": 1, "-": 2, "*": 3, "/": 4}.get(node.op)
+        return None if (l is None or r is None or op is None) else ["b%d" % op] + l + r
+    if k == "UnaryOp":
+        e = iexpr_tokens(node.node, names)
+        return None if (e is None or node.op != "-") else ["n"] + e
+    if k == "ParenExpr":
+        e = iexpr_tokens(node.node, names)
+        return None if e is None else ["p"] + e
+    return None
+
+
+def canon_implied(text, names, kind, shid):
+    """emitted Fortran text -> the driver's alphabet: @i arguments, K the implied argument's kind, #id type codes"""
+    t = text.replace(" ", "")
+    t = t.replace(".TRUE._C_BOOL", "T").replace(".FALSE._C_BOOL", "F")
+    if kind:
+        t = t.replace("kind=" + kind + ")", "kind=K)")
+
+    def rep(m):
+        w = m.group(0)
+        if w in ("size", "len", "len_trim", "kind") and t[m.end():m.end() + 1] in ("(", "="):
+            return w   # the intrinsic, even when an argument has the same name
+        if w in names:
+            return "@%d" % names[w]
+        if w.startswith("SH_TYPE_"):
+            return "#%d" % shid(w)
+        return w
+    return re.sub(r"[A-Za-z_]\w*", rep, t)
+
+
 class Tie:
     """collects driver requests for one batch of libraries, then compares"""
 
@@ -341,6 +408,26 @@ class Tie:
                 self.entries_c.add(_scope_get(fa, "stmtc1"))
             self.lines.append(line)
             self.expect.append(("asm", "%s:%s" % (tag, node.declgen or node.decl), (exp_fargs, exp_acts, matched), C_node))
+        # ---- implied expressions, one per emitted wrapper (fortran_generic clones included)
+        from shroud import declast
+        for cur, arg, expr, text in _holder.get("implied", []):
+            if cur is None:
+                continue
+            names = {a.name: i + 1 for i, a in enumerate(cur.ast.params)}
+            try:
+                toks = iexpr_tokens(declast.ExprParser(expr).expression(), names)
+            except Exception:
+                toks = None
+            if toks is None:
+                self.skipped += 1
+                continue
+            tab = ",".join("%d:%d" % (i + 1, self.tn("sh:" + str(a.typemap.sh_type))) for i, a in enumerate(cur.ast.params)) or "-"
+            self.lines.append("implied %s %s" % (tab, " ".join(toks)))
+            exp = canon_implied(text, names, arg.typemap.f_kind, lambda w: self.tn("sh:" + w))
+            form = re.sub(r"\d+", "", " ".join(t[0] for t in toks))
+            variant = ("generic-clone" if cur._generated == "fortran_generic" else "plain")
+            self.expect.append(("implied", "%s:%s:%s" % (tag, cur.declgen or cur.decl, expr), exp, (form, variant)))
+        _holder["implied"] = []
         # ---- routing
         pos = {id(n): k for k, n in enumerate(index)}
         tab = []
@@ -465,6 +552,15 @@ class Tie:
                     first = index[i]._PTR_F_C_index
                     if first is not None and first != c:
                         self.n_multihop = getattr(self, "n_multihop", 0) + 1
+            elif kind == "implied":
+                self.n_implied = getattr(self, "n_implied", 0) + 1
+                form, variant = extra
+                self.implied_forms = getattr(self, "implied_forms", {})
+                key = "%s x %s" % ({"s": "size", "l": "len", "t": "len_trim", "y": "type", "T": "true", "F": "false"}.get(form, "arithmetic/other"), variant)
+                self.implied_forms[key] = self.implied_forms.get(key, 0) + 1
+                if got != exp:
+                    bad.append({"kind": kind, "fn": tag, "model": got, "real": exp})
+                ctx.nontrivial(("implied", form, variant, got))
             elif kind == "gtargets":
                 self.n_gt = getattr(self, "n_gt", 0) + 1
                 model = [] if got == "-" else [int(x) for x in got.split(",")]
@@ -494,5 +590,6 @@ class Tie:
                     ctx.nontrivial(("generics", tag))
         return bad, {"assembled_functions": n_asm, "routes": n_route, "generic_tables": n_gen, "generic_clone_routings": getattr(self, "n_gt", 0),
                      "multi_hop_routes": getattr(self, "n_multihop", 0),
+                     "implied_expressions": getattr(self, "n_implied", 0), "implied_forms": getattr(self, "implied_forms", {}),
                      "generic_routings_of_default_argument_clones": getattr(self, "n_dflt_generic", 0), "skipped": self.skipped,
                      "f_entries_reached": sorted(x for x in self.entries_f if x), "c_entries_reached": sorted(x for x in self.entries_c if x)}
